@@ -1080,10 +1080,12 @@ func runSignal(c *Ctx, r *Reporter) {
 	if fd := FindFunc(pkg, "(*Evaluator).evalFunccall"); fd != nil {
 		sf := p.SSAFunc(fd.Obj)
 		unwraps := false
-		for _, b := range sf.Blocks {
-			for _, ins := range b.Instrs {
-				if ta, ok := ins.(*ssa.TypeAssert); ok && isNamed(ta.AssertedType, pkg.PkgPath, "returnVal") {
-					unwraps = true
+		for _, h := range regionFns(sf, 2, dispatcherNames) { // the call of a defined function may live in a helper
+			for _, b := range h.Blocks {
+				for _, ins := range b.Instrs {
+					if ta, ok := ins.(*ssa.TypeAssert); ok && isNamed(ta.AssertedType, pkg.PkgPath, "returnVal") {
+						unwraps = true
+					}
 				}
 			}
 		}
